@@ -127,8 +127,8 @@ class Edge:
                 for k, (o, (i, d)) in enumerate(zip(held, data_before)):
                     if id(o.data) != i or not TE.same_typed(o.data, d):
                         added = [key for key in o.data if key not in d] if isinstance(o.data, dict) else []
-                        bad = (f"input data: the data of argument event {k} changed" + (f" (key(s) {added} ADDED to a {TE.dict_kind(o.data)})" if added else "")
-                               + f": now {TE.show(o.data)}, was {TE.show(d)}")
+                        bad = (f"input data: the data of argument event {k} " + ("was replaced by another object" if id(o.data) != i else "changed")
+                               + (f" (key(s) {added} ADDED to a {TE.dict_kind(o.data)})" if added else "") + f": now {TE.show(o.data)}, was {TE.show(d)}")
                         break
         del R.routes[route]
         ck.count("stream:" + stream)
